@@ -264,6 +264,16 @@ func verifyIndependently(pub, sig, secret []byte) (key *secp256k1.PublicKey, ok 
 	return k, ecdsa.NewSignature(&r, &s).Verify(h[:], k)
 }
 
+// maybeStripV presents a forged proof in the 64-byte form (R|S without the
+// recovery id) half of the time: that form is verified on a different path.
+func maybeStripV(rc *kit.RunCtx, sig []byte) []byte {
+	if len(sig) == 65 && rc.Tape.Choose("sig64", 2) == 1 {
+		rc.Probe("forged_proof_without_recovery_id")
+		return append([]byte(nil), sig[:64]...)
+	}
+	return sig
+}
+
 func mutateBytes(t *kit.Tape, label string, b []byte) []byte {
 	out := append([]byte(nil), b...)
 	switch t.Weighted(label+".how", 5, 1, 1, 1) {
@@ -479,9 +489,9 @@ func runC32(rc *kit.RunCtx) {
 			if mx == nil || mx.remoteSig == nil {
 				return
 			}
-			present(mx.remotePub, mx.remoteSig, "")
+			present(mx.remotePub, maybeStripV(rc, mx.remoteSig), "")
 		case "pubA-sigM":
-			present(A.w.PublicKey(), signOver(M.w, my.extra), "")
+			present(A.w.PublicKey(), maybeStripV(rc, signOver(M.w, my.extra)), "")
 		case "sigM-other-secret":
 			var other []byte
 			switch t.Weighted("othersecret", 2, 1, 1) {
@@ -497,7 +507,7 @@ func runC32(rc *kit.RunCtx) {
 			if other == nil {
 				other = []byte{}
 			}
-			present(pubM, signOver(M.w, other), "")
+			present(pubM, maybeStripV(rc, signOver(M.w, other)), "")
 		case "mutate-public-key":
 			present(mutateBytes(t, "mutpub", pubM), signOver(M.w, my.extra), "")
 		case "mutate-signature":
